@@ -333,15 +333,23 @@ theorem C05_findHeaderSection_hang_witness_input :
       rw [h2]
       exact headerLoop_eofOnly_spins 4 g _ 5 rfl rfl
 
+theorem IS.m_le (s : IS) : s.m ≤ s.rest.length + 1 := by
+  unfold IS.m; split <;> omega
+
 /-- the inner loop of the `);` recovery scan at the end of `SDAI_Application_instance::STEPread`
-(`while( in.good() && c != ')' ) { in.get( c ); … }`): fuel `|remaining| + 2` suffices, iterations are linear,
-and it ends either on a `)` or on a stream that is no longer good. -/
-theorem C05_terminates_recoveryScan_inner (s : IS) (c : Byte) (len steps : Nat) :
-    ∃ s' c' len' steps', recoverInner (s.rest.length + 2) s c len steps = .ok (s', c', len', steps')
-      ∧ steps' ≤ steps + (s.rest.length + 1) ∧ (s'.good = true → c' = chRParen) := by
-  have hm := IS.meas_le s
-  obtain ⟨s', c', l', st', he, _, h2, h3⟩ := recoverInner_terminates (s.rest.length + 2) s c len steps (by omega)
-  exact ⟨s', c', l', st', he, by omega, h3⟩
+(`while( in.good() && c != ')' … ) { in.get( c ); … }`, in its regenerated shape): fuel `|remaining| + 2` suffices, its
+iterations are linear, and unless it has found the end of the record it ends on a `)` or on a stream that is no longer good. -/
+theorem C05_terminates_recoveryScan_inner (s : IS) (c : Byte) (q : Bool) (len steps : Nat) :
+    ∃ s' c' q' f' len' steps',
+      recoverInner C05.recoveryScanStaysInRecord (s.rest.length + 2) s c q len steps = .ok (s', c', q', f', len', steps')
+      ∧ steps' ≤ steps + 4 * (s.rest.length + 1) + 1 ∧ (f' = false → s'.good = true → c' = chRParen) := by
+  have hm := IS.m_le s
+  obtain ⟨s', c', q', f', l', st', he, _, h2, h3⟩ := recoverInner_pot 0 C05.recoveryScanStaysInRecord (s.rest.length + 2) s c q len steps (by omega)
+  have hp := pot_le (R := 0) s
+  refine ⟨s', c', q', f', l', st', he, ?_, fun hf => (h2 hf).2.1⟩
+  cases f' with
+  | false => have := (h2 rfl).1; omega
+  | true => have := h3 rfl; omega
 
 /-- `ReadComment`'s guarded loop is structurally bounded by the regenerated limit: at most `readCommentIters`
 (= MAX_COMMENT_LENGTH + 1) iterations whatever the input -/
@@ -350,9 +358,6 @@ theorem C05_terminates_readComment_loop (s : IS) (c : Byte) (len steps : Nat) :
   generalize C05.readCommentIters = iters
   fun_induction commentLoop iters s c len steps <;> simp_all <;> omega
 
-
-theorem IS.m_le (s : IS) : s.m ≤ s.rest.length + 1 := by
-  unfold IS.m; split <;> omega
 
 /-- `SkipInstance` (with the regenerated comment case and comment limit): fuel `|remaining bytes| + 2` is enough for
 every stream state; the stream never gets longer.  (Fuel bounds the iterations of the loop itself; iterations of the
@@ -373,13 +378,13 @@ theorem C05_terminates_readTokenSeparator (s : IS) :
   have := IS.m_le s
   exact readTokenSeparator_terminates _ _ (s.rest.length + 2) s (by omega)
 
-/-- the whole `);` recovery scan of `SDAI_Application_instance::STEPread` (outer and inner loop) -/
+/-- the whole `);` recovery scan of `SDAI_Application_instance::STEPread` (outer and inner loop, regenerated shape) -/
 theorem C05_terminates_recoveryScan (s : IS) (c : Byte) :
-    ∃ r, recoveryScan (s.rest.length + 2) s c = .ok r := by
-  have : s.clear.meas ≤ s.rest.length + 1 := by
-    have := IS.meas_le s.clear
-    simpa [IS.clear] using this
-  exact recoverOuter_terminates (s.rest.length + 2) s.clear c 0 0 (by omega)
+    ∃ r, recoveryScan C05.recoveryScanStaysInRecord C05.recoveryScanPutsBackSemi (s.rest.length + 2) s c = .ok r := by
+  have hcl : s.clear.m = s.rest.length + 1 := by simp [IS.clear, IS.m]
+  obtain ⟨r, a, _, _⟩ := recoverOuter_pot 0 C05.recoveryScanStaysInRecord C05.recoveryScanPutsBackSemi (s.rest.length + 2)
+    s.clear c false 0 0 (by omega) (by left; simp [IS.clear, IS.good])
+  exact ⟨r, a⟩
 
 /-- the export-list loops of Create/ReadScopeInstances, with the regenerated loop condition -/
 theorem C05_terminates_exportList (s : IS) (c : Byte) (steps : Nat) :
@@ -538,14 +543,46 @@ theorem C05_recoverLoop_exit (s : IS) (c : Byte) (steps : Nat) :
   obtain ⟨s', c', e, st, h1, _, _, h4⟩ := recoverLoop_ok hfs ht F s c steps (by omega) (by omega)
   exact ⟨s', c', e, st, h1, h4⟩
 
-/-- the whole `);` recovery scan (`in.clear()` first, then both loops): at most `4·(|bytes| + 1) + 1` steps -/
+/-- the whole `);` recovery scan (`in.clear()` first, then both loops, regenerated shape): at most `4·(|bytes| + 1) + 1`
+steps, and it never un-reads beyond where it started -/
 theorem C05_steps_recoveryScan (s : IS) (c : Byte) :
-    ∃ r, recoveryScan (s.rest.length + 2) s c = .ok r ∧ r.steps ≤ 4 * (s.rest.length + 1) + 1 := by
+    ∃ r, recoveryScan C05.recoveryScanStaysInRecord C05.recoveryScanPutsBackSemi (s.rest.length + 2) s c = .ok r ∧
+      r.s.m ≤ s.rest.length + 1 ∧ r.steps ≤ 4 * (s.rest.length + 1) + 1 := by
   have hcl : s.clear.m = s.rest.length + 1 := by simp [IS.clear, IS.m]
-  obtain ⟨r, a, _, b⟩ := recoverOuter_pot 0 (s.rest.length + 2) s.clear c 0 0 (by omega)
-    (by left; simp [IS.clear, IS.good])
+  obtain ⟨r, a, b', b⟩ := recoverOuter_pot 0 C05.recoveryScanStaysInRecord C05.recoveryScanPutsBackSemi (s.rest.length + 2)
+    s.clear c false 0 0 (by omega) (by left; simp [IS.clear, IS.good])
   have := pot_le (R := 0) s.clear
-  exact ⟨r, a, by omega⟩
+  exact ⟨r, a, by omega, by omega⟩
+
+/-- The scan with the end-of-record test (`fixes/C05-14`) stays in the record: on a record tail `a ;` without `'` and `)`
+it stops at the `;`, leaves it on the stream, and its cost — fuel and steps `|a| + 1` — does not depend on what follows. -/
+theorem C05_recoveryScan_stays_in_record (pb : Bool) (pre a b : List Byte) (eof fail sk : Bool) (c : Byte)
+    (ha : ∀ x ∈ a, x ≠ chQuote ∧ x ≠ chRParen ∧ x ≠ chSemi) (hc : c ≠ chRParen) :
+    recoveryScan true pb (a.length + 2) ⟨pre, a ++ chSemi :: b, eof, fail, sk⟩ c =
+      .ok ⟨⟨a.reverse ++ pre, chSemi :: b, false, false, sk⟩, 1, a.length + 1, a.length + 1⟩ := by
+  unfold recoveryScan
+  show recoverOuter true pb (a.length + 1 + 1) _ c false 0 0 = _
+  unfold recoverOuter
+  have h := recoverInner_stays a pre b sk c 0 0 (a.length + 1 + 1) ha hc (by omega)
+  simp only [IS.clear, IS.good, Bool.not_false, Bool.and_self, Bool.not_true, Bool.false_eq_true, if_false, h, if_true,
+    Nat.zero_add]
+
+/-- Without it (the scan as it stood): when no `)` follows, the scan reads to the end of the input — `|rest| + 2` steps for
+every record that ends this way, however short the record is.  With pass 2 resuming behind the record's `;`
+(`STEPfile::ReadInstance`), `n` such records cost `~ n²/2` record lengths. -/
+theorem C05_recoveryScan_leaves_record_witness (pb : Bool) (pre rest : List Byte) (eof fail sk : Bool) (c : Byte)
+    (hr : ∀ x ∈ rest, x ≠ chRParen) (hc : c ≠ chRParen) :
+    recoveryScan false pb (rest.length + 3) ⟨pre, rest, eof, fail, sk⟩ c =
+      .ok ⟨⟨rest.reverse ++ pre, [], true, true, sk⟩, 0, rest.length + 1, rest.length + 2⟩ := by
+  unfold recoveryScan
+  show recoverOuter false pb (rest.length + 2 + 1) _ c false 0 0 = _
+  unfold recoverOuter
+  obtain ⟨c', h⟩ := recoverInner_runs_on rest pre sk c false 0 0 (rest.length + 2 + 1) hr hc (by omega)
+  simp only [IS.clear, IS.good, Bool.not_false, Bool.and_self, Bool.not_true, Bool.false_eq_true, if_false, h,
+    Nat.zero_add, Bool.and_false, Bool.false_and, Bool.not_eq_true]
+  show recoverOuter false pb (rest.length + 1 + 1) _ _ _ _ _ = _
+  unfold recoverOuter
+  simp [IS.good]
 
 /-- the export-list loops with the regenerated condition: at most `4·(|bytes| + 1) + readCommentIters + 3` steps over all
 levels (two token separators with their comments per entry) -/
